@@ -29,6 +29,11 @@ class Attribute(_expression.Any):
         else:
             check_name(self._name)
 
+        try:
+            _ = data_type.bit_length_set
+        except TypeError:  # E.g., a service type: it has no serialized representation of its own.
+            raise InvalidTypeError("Type %s is not serializable and cannot be used for an attribute" % data_type) from None
+
     @property
     def data_type(self) -> SerializableType:
         return self._data_type
